@@ -17,13 +17,16 @@ MANIFEST = {
             "on one chain. The proof decomposes every prevote/precommit weight into duplicate-free contributor lists (VotesGhost.v), "
             "derives quorum intersection, the maxHeightPrevoted witness and the linked precommitting run from the model and instantiates "
             "the abstract induction (Safety.v). C01_examine_safe: the executable safety oracle cannot fire under these hypotheses. "
-            "C01_safety_partial: protocol-level theorem under an explicit QI premise (dynamic sets). The unrestricted statement is "
+            "Dynamic validator sets (blocks carrying parameter changes): C01_dynamic_safety_partial proves the same conclusion on the model "
+            "with ONE extra premise, quorum intersection above the fork point stated on the model (QI_model_decl); "
+            "C01_dynamic_safety_fork_params_partial discharges it when all changes lie below the fork. C01_safety_partial: the "
+            "abstract protocol-level theorem. The unrestricted statement is "
             "refuted by two vm_compute witnesses (precommitThreshold floor(W/3)+1; fork-dependent validator-set change) that replay "
             "on the real module: known findings. Tie: two-chain universes built by simulated honest/Byzantine validators run on the "
             "real liskbft module; every view compared with the model (as C02) and the safety oracle applied to the implementation's "
             "own finalized heights, classified inside Coq.",
-    "note": "Dynamic validator sets only under the QI premise (C01_safety_partial; model-level instantiation in BFT/SafetyDyn.v when "
-            "present). Signatures, ABI and the other validity rules are outside (C03). Heights unbounded N (< 2^32-1). Trusted: Coq "
+    "note": "Dynamic validator sets only under the QI premise (BFT/VotesGhostDyn.v, BFT/SafetyDyn.v); the validator-change refutation "
+            "witness provably violates that premise. Signatures, ABI and the other validity rules are outside (C03). Heights unbounded N (< 2^32-1). Trusted: Coq "
             "kernel + vm_compute, model fidelity as sampled by the C02/C01 correspondence, Go harness.",
 }
 
